@@ -14,6 +14,9 @@ CLAIMS = {
  "C09": dict(level="proof", design="3/C09",
    text="Proof over the verbatim model of filter_diagnostics / parse_comment / FilterVisitor that (for every input) an unknown-lint filter, a global filter after code and a same-piece same-lint filter each yield an invalid_lint_filter failure at the offending comment, that a rejected global filter leaves the instruction list, the accepted globals and the conflict state exactly as without it (inert), and that a malformed comment produces no entry. The model is tied to /repo by the same correspondence as C08 (parse_comment on generated texts incl. Unicode spaces; visit events of the real traversal; failures compared exactly, with ranges).",
    note="Trusted: as C08. Comments in the leading trivia of tokens that start no visited node (before else/end/until/`}`) are claimed by no node: class F2, listed open."),
+ "C10": dict(level="proof", design="3/C10",
+   text="Proof over the pipeline model (lints as oracles -> severities attached by get_lint_severity -> verbatim filter machine) that the findings are independent of the configuration, that an unconfigured lint keeps its default (with high_cyclomatic_complexity = allow re-proved against the lint table regenerated from /repo on every run), that relabelling severities commutes with sorting and with the filter machine (same diagnostics out, only un-governed ones change label), that a governing inline filter decides the emitted severity whatever the configured one (both directions), that a lint set to allow and not re-enabled stays invisible, and that the CLI counters ignore Allow diagnostics. Tied to /repo by comparing, inside coqc, what the real Checker shows for a file and for its filter-neutralised twin under all-allow / all-warn / all-deny / random per-lint configurations with the model's prediction from the findings under the empty configuration.",
+   note="Trusted: lints do not read the configured severities (this is exactly what the correspondence samples); LintTable translator; CLI printing of non-Allow diagnostics is covered by C19/C20."),
  "C15": dict(level="proof", design="3/C15",
    text="Machine-checked proof (Coq 8.16) that the model of StandardLibrary::extend, of base-chain resolution and of the CLI `+` fold satisfies 'derived overrides base, removed removes, derived lua_versions win' for all libraries and chains of any length; the model is tied to /repo by a correspondence run: the real extend()/from_name() and the model are evaluated on the same generated and shipped libraries inside coqc, and the specification is evaluated on the implementation's own output.",
    note="Trusted: Coq kernel, harness printers, wf_lib (no duplicate keys) checked per dumped library; YAML text layer and on-disk base lookup not modelled."),
